@@ -33,7 +33,7 @@ Section Inv.
     P io -> post (target IO opn cont owner self tns base r s io).
   Proof.
     intro H. unfold target. destruct r.
-    - dm; cbn; auto. destruct loc; cbn; auto. dm; cbn; auto. apply download_inv; auto.
+    - dm; cbn; auto. destruct loc as [l0|]; cbn; auto. dm; cbn; auto. apply download_inv; auto.
     - dm; cbn; auto. apply download_inv; auto.
   Qed.
 
@@ -44,7 +44,7 @@ Section Inv.
     intro Hrec. induction refs as [|r rest IH]; intros i s io H; cbn; auto.
     dm; auto.
     pose proof (target_inv cont owner self tns base r
-                 (mkS (s_memo s) (remove_slot (self, i) (s_rem s))) io H) as Ht.
+                 (set_rem s (remove_slot (self, i) (s_rem s))) io H) as Ht.
     destruct (target IO opn cont owner self tns base r _ io) as [[[[t|] s2]|k|] io2]; cbn in *; auto.
     pose proof (Hrec t s2 io2 Ht) as Hr.
     destruct (rec t s2 io2) as [[s3|k|] io3]; cbn in *; auto.
@@ -89,10 +89,10 @@ Section Inv.
     induction fuel as [|f IH]; intros u s io H; cbn; auto.
     pose proof (HopnW u io H) as Ho.
     destruct (opn DomW u io) as [[d|] io1]; cbn; auto.
-    destruct d as [imps types|x|]; cbn; auto.
+    destruct d as [imps types names|x|]; cbn; auto.
     destruct (alloc_types u types (w_heap s)) as [tids heap].
     pose proof (loop_imports_inv (load_defs IO opn univ f) u IH imps
-                 (mkW ((u, mkD true tids None) :: w_memo s) heap (w_built s)) io1 Ho) as Hl.
+                 (reg_wsdl u tids names heap s) io1 Ho) as Hl.
     destruct (loop_imports IO (load_defs IO opn univ f) u imps _ io1) as [[s2|k|] io2]; cbn in *; auto.
     pose proof (build_schema_inv u (local_roots u s2) io2 Hl) as Hb.
     destruct (build_schema IO opn univ u (local_roots u s2) io2) as [[s3|k|] io3]; cbn in *; auto.
@@ -339,14 +339,13 @@ Section Term.
     specialize (Hu d H eq_refl).
     destruct d as [| x |]; cbn; auto.
     assert (K : forall x', length (x_refs x') = length (x_refs x) ->
-                phi univ (mkS ((u, x') :: s_memo s) (slots_of (SUrl u) (length (x_refs x')) ++ s_rem s))
-                <= phi univ s).
+                phi univ (add_inst u x' s) <= phi univ s).
     { intros x' Hl. unfold phi. cbn. rewrite app_length, slots_of_length, Hl.
       pose proof (unloaded_download u x x' (s_memo s) univ Hn Hu). lia. }
     destruct incl; cbn.
     - destruct (x_tns x); cbn.
       + destruct (optN_eqb tns (Some n)); cbn; auto. split; auto. apply (K x). reflexivity.
-      + split; auto. apply (K (mkX tns (x_refs x))). reflexivity.
+      + split; auto. apply (K (mkX tns (x_refs x) (x_decls x))). reflexivity.
     - split; auto. apply (K x). reflexivity.
   Qed.
 
@@ -360,9 +359,10 @@ Section Term.
   Proof.
     intro H. unfold target. destruct r.
     - destruct (match self with SInl _ => if optN_eqb ns tns then None else locate cont ns
-                            | SUrl _ => None end); cbn; auto.
-      destruct loc; cbn; auto.
-      destruct (lookup (join base s0) (s_memo s)) eqn:E; cbn; auto. apply download_term; auto.
+                            | SUrl _ => None end).
+      { destruct loc; cbn; auto. }
+      destruct loc as [l0|]; cbn; auto.
+      destruct (lookup (join base l0) (s_memo s)) eqn:E; cbn; auto. apply download_term; auto.
     - destruct (lookup (join base loc) (s_memo s)) eqn:E; cbn; auto. apply download_term; auto.
   Qed.
 
@@ -374,7 +374,7 @@ Section Term.
     intro Hrec. induction refs as [|r rest IH]; intros i s io H Hf; cbn.
     - repeat split; auto; try discriminate. intros s' E. inversion E; subst. lia.
     - destruct (mem_slot (self, i) (s_rem s)) eqn:Em; cbn; auto.
-      set (s1 := mkS (s_memo s) (remove_slot (self, i) (s_rem s))).
+      set (s1 := set_rem s (remove_slot (self, i) (s_rem s))).
       assert (H1 : phi univ s1 < phi univ s).
       { unfold phi, s1. cbn. pose proof (remove_slot_lt _ _ Em). lia. }
       pose proof (target_term cont owner self tns base r s1 io H) as Ht.
@@ -384,7 +384,8 @@ Section Term.
         destruct (Hrec t s2 io2 Hp H2) as (Hn & Hm & Hp3).
         destruct (rec t s2 io2) as [[s3|k|] io3]; cbn in *.
         * specialize (Hm s3 eq_refl).
-          destruct (IH (S i) s3 io3 Hp3 ltac:(lia)) as (A & B & C).
+          assert (Em3 : phi univ (merge_tab s3 self t) = phi univ s3) by reflexivity.
+          destruct (IH (S i) (merge_tab s3 self t) io3 Hp3 ltac:(lia)) as (A & B & C).
           repeat split; auto. intros s' E. specialize (B s' E). lia.
         * repeat split; auto; discriminate.
         * congruence.
@@ -427,7 +428,7 @@ Section Term.
     intro H. unfold build_schema.
     set (cont := consolidate roots).
     destruct (open_all_term cont owner (schema_fuel univ cont) (seq 0 (length cont))
-                (mkS [] (cont_slots 0 cont)) io H) as (A & B & C).
+                (init_sst cont) io H) as (A & B & C).
     - unfold phi, schema_fuel. cbn. rewrite unloaded_nil. lia.
     - auto.
   Qed.
@@ -477,13 +478,19 @@ Section Term.
     apply wunloaded_ext. intro k. apply has_set_memo. unfold has. rewrite E. auto.
   Qed.
 
+  Lemma psi_set_names u ns s : psi (set_names u ns s) = psi s.
+  Proof.
+    unfold set_names, psi. destruct (lookup u (w_memo s)) eqn:E; auto. cbn.
+    apply wunloaded_ext. intro k. apply has_set_memo. unfold has. rewrite E. auto.
+  Qed.
+
   Lemma psi_import_definitions self d s : psi (import_definitions self d s) = psi s.
-  Proof. unfold import_definitions. apply psi_set_types. Qed.
+  Proof. unfold import_definitions. rewrite psi_set_names. apply psi_set_types. Qed.
 
   Lemma psi_import_schema self d s : psi (import_schema self d s) = psi s.
   Proof.
     unfold import_schema. destruct (d_xroot d); auto.
-    destruct (self_types self s); auto. rewrite psi_set_types. reflexivity.
+    destruct (own_types self s); auto. rewrite psi_set_types. reflexivity.
   Qed.
 
   Lemma loop_imports_term rec self f :
@@ -507,7 +514,7 @@ Section Term.
           repeat split; auto. intros s' E. specialize (B s' E). lia.
         - repeat split; auto; discriminate. }
       destruct (lookup (join self loc) (w_memo s)) eqn:El.
-      + apply K; auto.
+      + apply K; auto. destruct (is_built (join self loc) s); unfold psi; cbn; lia.
       + destruct (Hrec (join self loc) s io H El Hf) as (A & B & C).
         destruct (rec (join self loc) s io) as [[s1|k|] io1]; cbn in *.
         * apply K; auto.
@@ -525,9 +532,9 @@ Section Term.
     destruct (opn DomW u io) as [[d|] io1]; cbn in *.
     2:{ repeat split; auto; discriminate. }
     specialize (Hu d H eq_refl).
-    destruct d as [imps types|x|]; cbn.
+    destruct d as [imps types names|x|]; cbn.
     - destruct (alloc_types u types (w_heap s)) as [tids heap].
-      set (s1 := mkW ((u, mkD true tids None) :: w_memo s) heap (w_built s)).
+      set (s1 := reg_wsdl u tids names heap s).
       assert (H1 : psi s1 < psi s).
       { unfold psi, s1. cbn. eapply wunloaded_register; eauto. }
       destruct (loop_imports_term (load_defs IO opn univ f) u f IH imps s1 io1 Hp ltac:(lia)) as (A & B & C).
@@ -543,7 +550,7 @@ Section Term.
       + congruence.
     - repeat split; auto; try discriminate. intros s' E. inversion E; subst.
       unfold psi, mark_built. cbn.
-      pose proof (wunloaded_cons_le u (mkD false [] (Some x)) (w_memo s) univ). lia.
+      pose proof (wunloaded_cons_le u (mkD false [] (Some x) []) (w_memo s) univ). lia.
     - repeat split; auto; discriminate.
   Qed.
 
@@ -554,7 +561,7 @@ Section Term.
     Pio io -> fst (load_root IO opn univ root io) <> OutOfFuel.
   Proof.
     intro H. unfold load_root.
-    destruct (load_defs_term (S (length univ)) root (mkW [] [] []) io H eq_refl) as (A & _).
+    destruct (load_defs_term (S (length univ)) root wst0 io H eq_refl) as (A & _).
     - unfold psi. cbn. rewrite wunloaded_nil. lia.
     - exact A.
   Qed.
@@ -593,8 +600,8 @@ Section Rel.
     intro H. unfold target. destruct r.
     - destruct (match self with SInl _ => if optN_eqb ns tns then None else locate cont ns
                             | SUrl _ => None end); [split; auto|].
-      destruct loc; [|split; auto].
-      destruct (lookup (join base s0) (s_memo s)); [split; auto|]. apply download_rel; auto.
+      destruct loc as [l0|]; [|split; auto].
+      destruct (lookup (join base l0) (s_memo s)); [split; auto|]. apply download_rel; auto.
     - destruct (lookup (join base loc) (s_memo s)); [split; auto|]. apply download_rel; auto.
   Qed.
 
@@ -607,7 +614,7 @@ Section Rel.
     intro Hrec. induction refs as [|r rest IH]; intros i s a b H; cbn; [split; auto|].
     destruct (negb (mem_slot (self, i) (s_rem s))); auto.
     destruct (target_rel cont owner self tns base r
-                (mkS (s_memo s) (remove_slot (self, i) (s_rem s))) a b H) as [E Hr].
+                (set_rem s (remove_slot (self, i) (s_rem s))) a b H) as [E Hr].
     destruct (target IO1 opn1 cont owner self tns base r _ a) as [o1 a1],
              (target IO2 opn2 cont owner self tns base r _ b) as [o2 b1]; cbn in *. subst o2.
     destruct o1 as [[[t|] s2]|k|]; try (split; auto; fail); auto.
@@ -647,7 +654,8 @@ Section Rel.
   Proof.
     intro Hrec. induction imps as [|loc rest IH]; intros s a b H; cbn; [split; auto|].
     destruct (lookup (join self loc) (w_memo s)) eqn:El.
-    - rewrite El. auto.
+    - cbn. destruct (lookup (join self loc) (w_memo (if is_built (join self loc) s then s else set_cyc s)));
+        [|split; auto]. auto.
     - destruct (Hrec (join self loc) s a b H) as [E Hr].
       destruct (rec1 (join self loc) s a) as [o1 a1], (rec2 (join self loc) s b) as [o2 b1]; cbn in *.
       subst o2. destruct o1 as [s1|k|]; try (split; auto; fail).
@@ -662,10 +670,10 @@ Section Rel.
     destruct (Hrel DomW u a b H) as [E Hr].
     destruct (opn1 DomW u a) as [o1 a1], (opn2 DomW u b) as [o2 b1]; cbn in *. subst o2.
     destruct o1 as [d|]; [|split; auto].
-    destruct d as [imps types|x|]; try (split; auto; fail).
+    destruct d as [imps types names|x|]; try (split; auto; fail).
     destruct (alloc_types u types (w_heap s)) as [tids heap].
     destruct (loop_imports_rel (load_defs IO1 opn1 univ f) (load_defs IO2 opn2 univ f) u IH imps
-                (mkW ((u, mkD true tids None) :: w_memo s) heap (w_built s)) a1 b1 Hr) as [E Hr2].
+                (reg_wsdl u tids names heap s) a1 b1 Hr) as [E Hr2].
     destruct (loop_imports IO1 (load_defs IO1 opn1 univ f) u imps _ a1) as [o1 a2],
              (loop_imports IO2 (load_defs IO2 opn2 univ f) u imps _ b1) as [o2 b2]; cbn in *. subst o2.
     destruct o1 as [s2|k|]; try (split; auto; fail).
@@ -883,7 +891,7 @@ Section Once.
       - eapply sstep_fail_trans; eauto.
     Qed.
 
-    Lemma SI_rem s rem io : SI s io -> SI (mkS (s_memo s) rem) io.
+    Lemma SI_rem s rem io : SI s io -> SI (set_rem s rem) io.
     Proof. intro H. exact H. Qed.
 
     Definition tpost (s : sst) (io : IO) (r : outcome (option sid * sst) * IO) : Prop :=
@@ -900,8 +908,7 @@ Section Once.
       assert (F1 : sframe io io1).
       { intros q Hin. rewrite Hq in Hin. destruct Hin as [<-|Hin]; auto. }
       assert (Fail : sfail io io1) by (split; auto).
-      assert (Good : forall x', sstep s io (mkS ((u, x') :: s_memo s)
-                                   (slots_of (SUrl u) (length (x_refs x')) ++ s_rem s)) io1).
+      assert (Good : forall x', sstep s io (add_inst u x' s) io1).
       { intro x'. split; [split; auto|split; auto].
         - intros v Hin. cbn. rewrite Hq in Hin. destruct Hin as [E|Hin].
           + inversion E; subst. apply has_cons_same.
@@ -912,7 +919,7 @@ Section Once.
       destruct incl.
       - destruct (x_tns x).
         + destruct (optN_eqb tns (Some n)); [apply (Good x)|exact Fail].
-        + apply (Good (mkX tns (x_refs x))).
+        + apply (Good (mkX tns (x_refs x) (x_decls x))).
       - apply (Good x).
     Qed.
 
@@ -921,9 +928,11 @@ Section Once.
     Proof.
       intro H. unfold target. destruct r.
       - destruct (match self with SInl _ => if optN_eqb ns tns then None else locate cont ns
-                              | SUrl _ => None end); cbn; [apply sstep_refl; auto|].
-        destruct loc; cbn; [|apply sstep_refl; auto].
-        destruct (lookup (join base s0) (s_memo s)) eqn:E; cbn; [apply sstep_refl; auto|].
+                              | SUrl _ => None end); cbn.
+        { destruct loc; [|apply (sstep_refl _ io); exact H].
+          split; [exact H|split; [intros q; auto|intros v; auto]]. }
+        destruct loc as [l0|]; cbn; [|apply sstep_refl; auto].
+        destruct (lookup (join base l0) (s_memo s)) eqn:E; cbn; [apply sstep_refl; auto|].
         apply download_once; auto.
       - destruct (lookup (join base loc) (s_memo s)) eqn:E; cbn; [apply sstep_refl; auto|].
         apply download_once; auto.
@@ -937,7 +946,7 @@ Section Once.
       intro Hrec. induction refs as [|r rest IH]; intros i s io H; cbn.
       - apply sstep_refl; auto.
       - destruct (negb (mem_slot (self, i) (s_rem s))); auto.
-        set (s1 := mkS (s_memo s) (remove_slot (self, i) (s_rem s))).
+        set (s1 := set_rem s (remove_slot (self, i) (s_rem s))).
         assert (H1 : sstep s io s1 io) by (apply (sstep_refl s1 io); exact H).
         pose proof (target_once cont self tns base r s1 io H) as Ht.
         destruct (target IO opn cont owner self tns base r s1 io) as [[[[t|] s2]|k|] io2];
@@ -946,7 +955,8 @@ Section Once.
           pose proof (Hrec t s2 io2 (proj1 Ht)) as Hr.
           destruct (rec t s2 io2) as [[s3|k|] io3]; unfold spost in Hr.
           * pose proof (sstep_trans _ _ _ _ _ _ H2 Hr) as H3.
-            apply (spost_trans _ _ _ _ _ H3). apply IH. exact (proj1 Hr).
+            assert (H3' : sstep s io (merge_tab s3 self t) io3) by exact H3.
+            apply (spost_trans _ _ _ _ _ H3'). apply IH. exact (proj1 H3').
           * exact (sstep_fail_trans _ _ _ _ _ H2 Hr).
           * exact (sstep_fail_trans _ _ _ _ _ H2 Hr).
         + pose proof (sstep_trans _ _ _ _ _ _ H1 Ht) as H2.
@@ -981,7 +991,7 @@ Section Once.
     Proof.
       intros N M. unfold build_schema.
       set (cont := consolidate roots).
-      assert (H : SI (mkS [] (cont_slots 0 cont)) io).
+      assert (H : SI (init_sst cont) io).
       { split; auto. intros u Hin. destruct (M u Hin). }
       pose proof (open_all_once cont (schema_fuel univ cont) (seq 0 (length cont)) _ io H) as Ho.
       destruct (open_all IO opn cont owner (schema_fuel univ cont) (seq 0 (length cont)) _ io)
@@ -1034,14 +1044,20 @@ Section Once.
     apply has_set_memo. unfold has. rewrite E. auto.
   Qed.
 
+  Lemma has_set_names k u ns s : has k (w_memo (set_names u ns s)) = has k (w_memo s).
+  Proof.
+    unfold set_names. destruct (lookup u (w_memo s)) eqn:E; auto. cbn.
+    apply has_set_memo. unfold has. rewrite E. auto.
+  Qed.
+
   Lemma has_import k self d s :
     has k (w_memo (if d_wsdl d then import_definitions self d s else import_schema self d s))
     = has k (w_memo s).
   Proof.
     destruct (d_wsdl d).
-    - unfold import_definitions. apply has_set_types.
+    - unfold import_definitions. rewrite has_set_names. apply has_set_types.
     - unfold import_schema. destruct (d_xroot d); auto.
-      destruct (self_types self s); auto. rewrite has_set_types. reflexivity.
+      destruct (own_types self s); auto. rewrite has_set_types. reflexivity.
   Qed.
 
   Lemma wstep_import s io self d :
@@ -1071,7 +1087,8 @@ Section Once.
           eapply wpost_trans; [eapply wstep_trans; eauto|]. apply IH. exact (proj1 H2).
         - cbn. destruct H1 as [[N1 _] [F1 _]]. split; auto. }
       destruct (lookup (join self loc) (w_memo s)) eqn:El.
-      + apply K. apply wstep_refl; auto.
+      + apply K. destruct (is_built (join self loc) s); [apply wstep_refl; auto|].
+        exact (wstep_refl s io H).
       + pose proof (Hrec (join self loc) s io H El) as Hr.
         destruct (rec (join self loc) s io) as [[s1|k|] io1]; cbn in Hr; auto.
   Qed.
@@ -1091,17 +1108,17 @@ Section Once.
       assert (F1 : wframe s io io1).
       { intros q Hin. rewrite Hq in Hin. destruct Hin as [<-|Hin]; auto. }
       assert (Fail : wfail s io io1) by (split; auto).
-      assert (Reg : forall di heap built, wstep s io (mkW ((u, di) :: w_memo s) heap built) io1).
-      { intros di heap built. split; [split; auto|split; auto].
+      assert (Reg : forall di heap built cy sh, wstep s io (mkW ((u, di) :: w_memo s) heap built cy sh) io1).
+      { intros di heap built cy sh. split; [split; auto|split; auto].
         - intros q Hin. cbn. rewrite Hq in Hin. destruct Hin as [<-|Hin].
           + cbn. apply has_cons_same.
           + apply has_cons_mono. auto.
         - intros v Hv. cbn. apply has_cons_mono. auto. }
       destruct o as [d|]; cbn; auto.
-      destruct d as [imps types|x|]; cbn; auto.
+      destruct d as [imps types names|x|]; cbn; auto.
       + destruct (alloc_types u types (w_heap s)) as [tids heap].
-        set (s1 := mkW ((u, mkD true tids None) :: w_memo s) heap (w_built s)).
-        pose proof (Reg (mkD true tids None) heap (w_built s)) as H1. fold s1 in H1.
+        set (s1 := reg_wsdl u tids names heap s).
+        pose proof (Reg (mkD true tids None names) heap (w_built s) (w_cyc s) (w_shadow s)) as H1. fold s1 in H1.
         pose proof (loop_imports_once (load_defs IO opn univ f) u IH imps s1 io1 (proj1 H1)) as Hl.
         destruct (loop_imports IO (load_defs IO opn univ f) u imps s1 io1) as [[s2|k|] io2]; cbn in Hl.
         * assert (H2 : wstep s io s2 io2) by (eapply wstep_trans; eauto).
@@ -1130,17 +1147,17 @@ Section Once.
           destruct H1 as [_ [F Mo]]. eapply wframe_trans; eauto.
         * cbn. destruct Hl as [N2 F2]. split; auto.
           destruct H1 as [_ [F Mo]]. eapply wframe_trans; eauto.
-      + apply (Reg (mkD false [] (Some x)) (w_heap s) (u :: w_built s)).
+      + apply (Reg (mkD false [] (Some x) []) (w_heap s) ((u, []) :: w_built s) (w_cyc s) (w_shadow s || false)).
   Qed.
 
   Transparent load_root.
   Lemma load_root_once root io : reqs io = [] -> NoDup (reqs (snd (load_root IO opn univ root io))).
   Proof.
     intro E. unfold load_root.
-    assert (H : WI (mkW [] [] []) io).
+    assert (H : WI wst0 io).
     { split; rewrite E; [constructor|intros q []]. }
     pose proof (load_defs_once (S (length univ)) root _ io H eq_refl) as L.
-    destruct (load_defs IO opn univ (S (length univ)) root (mkW [] [] []) io) as [[s|k|] io']; cbn in *.
+    destruct (load_defs IO opn univ (S (length univ)) root wst0 io) as [[s|k|] io']; cbn in *.
     - exact (proj1 (proj1 L)).
     - exact (proj1 L).
     - exact (proj1 L).
@@ -1268,7 +1285,8 @@ Section WReach.
     { eapply reach_step; eauto. apply Hin. left; auto. }
     assert (Hin' : forall l, In l rest -> In l (doc_locs d)) by (intros l Hl; apply Hin; right; auto).
     destruct (lookup (join self loc) (w_memo s)) eqn:El.
-    - rewrite El. apply IH; auto.
+    - cbn. destruct (lookup (join self loc) (w_memo (if is_built (join self loc) s then s else set_cyc s)));
+        cbn; auto.
     - pose proof (Hrec (join self loc) s io Rl H) as Hr.
       destruct (rec (join self loc) s io) as [[s1|k|] io1]; cbn in *; auto.
       destruct (lookup (join self loc) (w_memo s1)); cbn; auto.
@@ -1286,11 +1304,11 @@ Section WReach.
       inversion E; subst; auto. }
     destruct o as [d|]; cbn; auto.
     specialize (Hs d P eq_refl).
-    destruct d as [imps types|x|]; cbn; auto.
+    destruct d as [imps types names|x|]; cbn; auto.
     destruct (alloc_types u types (w_heap s)) as [tids heap].
-    pose proof (loop_imports_wr (load_defs IO opn univ f) u (DWsdl imps types) Ru Hs IH imps
-                  (mkW ((u, mkD true tids None) :: w_memo s) heap (w_built s)) io1) as Hl.
-    assert (Hin : forall l, In l imps -> In l (doc_locs (DWsdl imps types))).
+    pose proof (loop_imports_wr (load_defs IO opn univ f) u (DWsdl imps types names) Ru Hs IH imps
+                  (reg_wsdl u tids names heap s) io1) as Hl.
+    assert (Hin : forall l, In l imps -> In l (doc_locs (DWsdl imps types names))).
     { intros l Hl0. cbn. apply in_or_app. left; auto. }
     specialize (Hl Hin H1).
     destruct (loop_imports IO (load_defs IO opn univ f) u imps _ io1) as [[s2|k|] io2]; cbn in *; auto.
@@ -1325,7 +1343,7 @@ Proof.
   intros Hs Er.
   pose proof (load_defs_wr io (opn_c W) (docs_of W) i_reqs W root (fun x => cache_sound W (i_dcache x))
                 (opn_c_reqs W) (fun d u x => opn_c_sound W d u x) (fun d u x y => opn_c_src W d u x y)
-                (S (length (docs_of W))) root (mkW [] [] []) i (reach_root W root)) as L.
+                (S (length (docs_of W))) root wst0 i (reach_root W root)) as L.
   apply L. split; auto. rewrite Er. intros v [].
 Qed.
 Opaque load_root.
